@@ -10,7 +10,8 @@ EXPLANATION = (
     "(PartialEq, PartialOrd, Ord) and the function they share never hands a possibly-quoted-triple term to the "
     "label-sensitive Term::eq / Term::cmp: such a call is reachable only on a path where the kinds are not both Triple and "
     "not both BlankNode, and the Triple/Triple case recurses component-wise through the blank-blind comparison itself. "
-    "(R7.2) in isomorphic_datasets / isomorphic_graphs the size test, the pairwise test (after sorting both sides with the "
+    "(R7.5) two atomic ground terms of the same kind are always compared as whole terms (Term::cmp/eq of the wrapped "
+    "terms on every path). (R7.2) in isomorphic_datasets / isomorphic_graphs the size test, the pairwise test (after sorting both sides with the "
     "same order) and the blank-node-count test each lead to Ok(false); every helper is applied to both arguments the same "
     "number of times (structural part of symmetry); errors of the first/second argument map to Source/Sink; the final "
     "verdict compares the equivalence classes of both sides. (R7.3) the graph-name comparison eq_gn returns true only for "
@@ -95,6 +96,39 @@ def iso_term_rule(ck, facts):
                            "nodes nested in quoted triples are compared by label, so a renamed copy is reported as different"
                            % (f.name, t["f"]["name"]), "%s:%s" % (t["file"], t["line"]))
     ck.floor("R7.1", "label-sensitive comparisons inside IsoTerm's impls", analysed, 1)
+    # R7.5: two ground atomic terms of the same kind are compared *as whole terms*: with both kinds Iri / Literal / Variable,
+    # every path of the blank-blind comparison passes through Term::cmp / Term::eq on the wrapped terms (an arm that compares
+    # only some components - e.g. lexical form and tag but not the datatype - makes different ground terms "equal")
+    for f in [x for x in facts.fns.values() if x.crate == "sophia_isomorphism" and "iso_term" in x.file and x.kind != "Closure"]:
+        lsc = label_sensitive_calls(f)
+        if not lsc or not any((fb["t"].get("variants") or {}).get("enum", "").endswith("term::TermKind") for fb in f.blocks if fb["t"]["t"] == "switch"):
+            continue
+        full = {bi for bi, _ in lsc}
+        for kind in ("Iri", "Literal", "Variable"):
+            seenb, st, escapes = set(), [0], False
+            while st:
+                b = st.pop()
+                if b in seenb or b in full:
+                    continue
+                seenb.add(b)
+                tt = f.blocks[b]["t"]
+                if tt["t"] == "ret":
+                    escapes = True
+                var = tt.get("variants") if tt["t"] == "switch" else None
+                if var and var["enum"].endswith("term::TermKind"):
+                    tgt = None
+                    for v, tb in tt["vals"]:
+                        if var["names"].get(v) == kind:
+                            tgt = tb
+                    st.append(tgt if tgt is not None else tt["else"])
+                    continue
+                st.extend(f.succs(b))
+            if escapes:
+                ck.bad("R7.5", "R7.5@%s#%s-not-whole-term" % (f.name, kind), "%s can answer for two %s terms without comparing them as whole terms "
+                       "(Term::cmp / Term::eq of the wrapped terms): ground terms differing in a component it does not read would be "
+                       "identified" % (f.name, kind), f.loc)
+            else:
+                ck.ok("R7.5", "%s: two %s terms are compared as whole terms" % (f.name, kind))
     # the Triple/Triple case recurses through the blank-blind comparison
     rec = [f for f in facts.fns.values() if f.crate == "sophia_isomorphism" and "iso_term" in f.file and
            any((t["f"].get("res") == f.id) for _, t in f.calls()) or
@@ -228,9 +262,79 @@ def colour_rule(ck, facts):
                    "order-dependent steps: %s): colours must not depend on statement order" % (xor, [b.split("::")[-1] for b in bad]), fn.loc)
 
 
+def hash_rule(ck, facts):
+    """R7.6: in hash_term_with the label-sensitive `Term::hash` of the whole term is reached only when the term is neither a
+    blank node nor a quoted triple, decided by the accessors themselves (`bnode_id()` is None and `triple()` is None, tested
+    directly): a quoted triple that is not recursed into (e.g. because its *direct* components are ground) leaks the labels
+    of blank nodes nested deeper into the colour."""
+    fn = find(ck, facts, "R7.6", r"^hash::hash_term_with$", "hash::hash_term_with")
+    if fn is None:
+        return
+
+    def on_call(t):
+        if call_name_matches(t, r"Term>?::hash$|hash::Hash>?::hash$") and t["args"]:
+            o = provenance(fn, t["args"][0])[-1]
+            if o[0] == "param" and o[1] == 1:
+                return ("HASH", t)
+        return None
+    try:
+        paths = enumerate_paths(fn, 0, on_call, max_paths=2000)
+    except Exception as e:
+        ck.bad("R7.6", "R7.6@hash_term_with#shape", str(e), fn.loc)
+        return
+    n = 0
+    for conds, toks in paths:
+        if not any(isinstance(t, tuple) and t[0] == "HASH" for t in toks):
+            continue
+        n += 1
+        direct = {}
+        for d, outcome, src in conds:
+            m = re.search(r"Term>?::(bnode_id|triple)$", d or "")
+            if m and src and src[0] == "call":
+                direct[m.group(1)] = outcome
+        if direct.get("bnode_id") == "None" and direct.get("triple") == "None":
+            continue
+        ck.bad("R7.6", "R7.6@hash_term_with#label-leak", "the whole term is hashed with the label-sensitive Term::hash on a path where "
+               "`bnode_id()` / `triple()` were not both found None by a direct test (found %s): a quoted triple that is not recursed "
+               "into leaks the labels of the blank nodes nested in it" % direct, fn.loc)
+        return
+    if n:
+        ck.ok("R7.6", "hash_term_with: Term::hash of the whole term only when bnode_id() and triple() are both None (%d path(s))" % n)
+    else:
+        ck.bad("R7.6", "R7.6@hash_term_with#no-ground-path", "no path hashes a ground term with Term::hash", fn.loc)
+
+
+SHRINKERS = r"Vec::<T, A>::(dedup|dedup_by|dedup_by_key|retain|retain_mut|remove|swap_remove|truncate|drain|pop|clear|split_off)$"
+
+
+def no_merge_rule(ck, facts):
+    """R7.7: the prepared quads (wrapped in IsoTerm, whose equality identifies *all* blank nodes) are never merged, removed
+    or de-duplicated: `q1 == q2` on IsoTerm quads does not mean "the same quad", so any dedup/retain/remove on those vectors
+    can drop distinct quads (e.g. the same ground triple in two blank-named graphs) and makes the answer order-dependent."""
+    n = 0
+    bad = []
+    for f in facts.fns.values():
+        if f.crate != "sophia_isomorphism":
+            continue
+        n += 1
+        for bi, t in f.calls():
+            if call_name_matches(t, SHRINKERS) and t["args"] and t["args"][0][0] != "k":
+                ty = f.locals[t["args"][0][1][0]]["ty"]
+                if "IsoTerm" in ty:
+                    root = f if f.kind != "Closure" else facts.fns.get(f.root, f)
+                    bad.append((root.name, t["f"]["name"].split("::")[-1], "%s:%s" % (t["file"], t["line"])))
+    for name, op, loc in bad:
+        ck.bad("R7.7", "R7.7@%s#%s" % (name, op), "%s applies `%s` to a vector of IsoTerm quads: IsoTerm equality is blank-blind, so this can "
+               "merge or drop distinct quads" % (name, op), loc)
+    if not bad:
+        ck.ok("R7.7", "no merging / removal on vectors of IsoTerm quads (%d functions)" % n)
+
+
 def run(ck, facts, tier):
     facts.require_crates(["sophia_isomorphism"])
     iso_term_rule(ck, facts)
+    hash_rule(ck, facts)
+    no_merge_rule(ck, facts)
     eq_gn_rule(ck, facts)
     driver_rule(ck, facts, "dataset::isomorphic_datasets", None)
     gfn = find(ck, facts, "R7.2", r"^graph::isomorphic_graphs$", "graph::isomorphic_graphs")
